@@ -180,6 +180,11 @@ def case_take(ctx, s: Subject):
     cnt = rng.randint(0, n + 2)
     lo = -1 if allow_fill else -n
     idx = [rng.randint(lo, n - 1) if n else -1 for _ in range(cnt)]
+    shape = "random"
+    if n and rng.random() < 0.35:
+        # ascending positions (what label lookups and sorted selections ask for): runs, repeats next to gaps
+        idx = sorted(rng.randrange(n) for _ in range(cnt))
+        shape = "ascending"
     if rng.random() < 0.15:
         idx.append(rng.choice([n, n + 1, -n - 1, -2]))
     fill = None
@@ -190,7 +195,7 @@ def case_take(ctx, s: Subject):
                                              fill_value=df_of_row(fill, s.ty))))
     ans = ctx.driver.call("take", col=s.phys, indices=idx, allowFill=allow_fill, fill=fill)
     ctx.case("take", {**s.desc(), "indices": idx, "allow_fill": allow_fill, "fill": fill}, real, mcol(ans["model"]),
-             mcol(ans["spec"]), hyp=s.hyp, features=s.features + (f"fill={allow_fill}",), nontrivial=s.nontrivial())
+             mcol(ans["spec"]), hyp=s.hyp, features=s.features + (f"fill={allow_fill}", f"positions={shape}"), nontrivial=s.nontrivial())
 
 
 def ragged_row(rng, ty):
